@@ -15,6 +15,16 @@ def rat? : Sexp → Option Rat
 def ofRat (q : Rat) : Sexp :=
   if q.den = 1 then ofInt q.num else .list [.atom "q", ofInt q.num, ofNat q.den]
 
+/-- Masks travel as one atom `mTTFF…` (compact evidence). -/
+def ofBits (bs : List Bool) : Sexp := .atom ("m" ++ String.ofList (bs.map fun b => if b then 'T' else 'F'))
+
+def toBits? : Sexp → Option (List Bool)
+  | .atom s =>
+    match s.toList with
+    | 'm' :: cs => cs.mapM fun c => if c == 'T' then some true else if c == 'F' then some false else none
+    | _ => none
+  | _ => none
+
 def pt? : Sexp → Option Pt
   | .list [a, b] => do some ⟨← rat? a, ← rat? b⟩
   | _ => none
@@ -111,7 +121,7 @@ def step (line : String) : String :=
       let nears := es.map (specNear ε r xc yc pre)
       -- python output: (xcats ycats state mask)
       let (pyMask, pyOk) : Option (List Bool) × Bool := match pyout with
-        | .list [_, _, _, m] => (m.toBools?, true)
+        | .list [_, _, _, m] => (toBits? m, true)
         | _ => (none, false)
       -- inside the band (ε > 0) the float code may legitimately differ from the exact model
       let implMask := match pyMask with
@@ -119,7 +129,7 @@ def step (line : String) : String :=
             (model.zip (pm.zip nears)).map fun t => if t.2.2 then t.2.1 else t.1
           else model
         | none => model
-      let impl := Sexp.list [ofOptInts xc, ofOptInts yc, stateSexp (ε == 0) st, ofBools implMask]
+      let impl := Sexp.list [ofOptInts xc, ofOptInts yc, stateSexp (ε == 0) st, ofBits implMask]
       let ok := pyOk && match pyMask with
         | some pm => specMask ε r xc yc pre es pm
         | none => false
@@ -137,10 +147,10 @@ def step (line : String) : String :=
     | some vs, some ps =>
       let eo := ps.map (evenOdd vs)
       let pip := ps.map (pointsInsidePoly vs)
-      let impl := Sexp.list [ofBools eo, ofBools pip]
+      let impl := Sexp.list [ofBits eo, ofBits pip]
       -- Spec for the library model: off the boundary the prefiltered test equals the even-odd rule
       let ok := match pyout with
-        | .list [_, b] => match b.toBools? with
+        | .list [_, b] => match toBits? b with
           | some pb => pb.length == ps.length &&
               (ps.zip pb).all fun t => onPolyBoundary vs t.1 || (t.2 == evenOdd vs t.1)
           | none => false
@@ -171,7 +181,7 @@ def step (line : String) : String :=
     | some cats, some lo, some hi, some labs =>
       let sel := fromRange cats lo hi
       let cont := labs.map (catRoiContains sel)
-      let impl := Sexp.list [ofInts sel, ofBools cont]
+      let impl := Sexp.list [ofInts sel, ofBits cont]
       -- Spec: a label of `cats` is contained iff its position lies strictly inside (lo, hi),
       -- except on the boundary position = lo; a foreign label is never contained
       let spec (m : List Bool) : Bool := m.length == labs.length && (labs.zip m).all fun t =>
@@ -180,7 +190,7 @@ def step (line : String) : String :=
           decide (i = lo) || (t.2 == (decide (lo < i) && decide (i < hi)))
         else t.2 == false
       let ok := match pyout with
-        | .list [_, m] => match m.toBools? with | some pm => spec pm | none => false
+        | .list [_, m] => match toBits? m with | some pm => spec pm | none => false
         | _ => false
       driverResult impl ok (spec cont) true (if sel.isEmpty then "empty" else "nonempty")
     | _, _, _, _ => bad "frange-args"
